@@ -18,6 +18,7 @@ REPO = os.environ.get('VERIF_REPO_BASE', '/repo')
 CONN = 'minecraft/networking/connection.py'
 PKT = 'minecraft/networking/packets/packet.py'
 ENC = 'minecraft/networking/encryption.py'
+PL = 'minecraft/networking/packets/packet_listener.py'
 AUTH = 'minecraft/authentication.py'
 
 # (property, name, file, old, new)
@@ -189,6 +190,30 @@ M = [
  ('C18', 'key-is-reversed-secret', ENC,
   "    cipher = Cipher(algorithms.AES(shared_secret), modes.CFB8(shared_secret),",
   "    cipher = Cipher(algorithms.AES(shared_secret[::-1]), modes.CFB8(shared_secret),"),
+ ('C13', 'listener-lists-swapped', CONN,
+  "            else self.early_packet_listeners if early and not outgoing \\\n            else self.outgoing_packet_listeners if not early \\",
+  "            else self.early_packet_listeners if early and not outgoing \\\n            else self.outgoing_packet_listeners if early \\"),
+ ('C13', 'early-ignore-does-not-stop-reaction', CONN,
+  "        try:\n            for listener in self.early_packet_listeners:\n                listener.call_packet(packet)\n            self.reactor.react(packet)",
+  "        try:\n            try:\n                for listener in self.early_packet_listeners:\n                    listener.call_packet(packet)\n            except IgnorePacket:\n                pass\n            self.reactor.react(packet)"),
+ ('C13', 'called-once-per-matching-type', PL,
+  "                self.callback(packet)\n                return True",
+  "                self.callback(packet)"),
+ ('C13', 'outgoing-listeners-before-write', CONN,
+  "            if self.options.compression_enabled:\n                packet.write(self.socket, self.options.compression_threshold)\n            else:\n                packet.write(self.socket)\n\n            for listener in self.outgoing_packet_listeners:\n                listener.call_packet(packet)",
+  "            for listener in self.outgoing_packet_listeners:\n                listener.call_packet(packet)\n\n            if self.options.compression_enabled:\n                packet.write(self.socket, self.options.compression_threshold)\n            else:\n                packet.write(self.socket)"),
+ ('C13', 'ordinary-listeners-before-reaction', CONN,
+  "            self.reactor.react(packet)\n            for listener in self.packet_listeners:\n                listener.call_packet(packet)",
+  "            for listener in self.packet_listeners:\n                listener.call_packet(packet)\n            self.reactor.react(packet)"),
+ ('C13', 'early-listeners-reverse-order', CONN,
+  "        target.append(packets.PacketListener(method, *packet_types, **kwds))",
+  "        if early:\n            target.insert(0, packets.PacketListener(method, *packet_types, **kwds))\n        else:\n            target.append(packets.PacketListener(method, *packet_types, **kwds))"),
+ ('C13', 'exact-type-match-only', PL,
+  "            if isinstance(packet, packet_type):",
+  "            if type(packet) is packet_type:"),
+ ('C13', 'ignore-in-ordinary-outgoing-aborts-later-packets', CONN,
+  "            for listener in self.outgoing_packet_listeners:\n                listener.call_packet(packet)\n        except IgnorePacket:\n            pass",
+  "            for listener in self.outgoing_packet_listeners:\n                try:\n                    listener.call_packet(packet)\n                except IgnorePacket:\n                    pass\n        except IgnorePacket:\n            pass"),
 ]
 
 
